@@ -5,6 +5,7 @@
   Helper lemmas are in Lemmas/MtEncA..I.lean.
 -/
 import XzVerif.Lemmas.MtEncI
+import XzVerif.Gen.C08
 
 namespace XzVerif.C08
 open XzVerif.MtEnc
@@ -183,6 +184,10 @@ theorem mtenc_no_deadlock {P : Params} {c : Cfg} (h1 : 0 < c.bs) (h2 : 0 < c.tma
     (hd : s.mpc ≠ .dead) : ∃ ev s', step P s ev = some s' ∧ ev.isReal = true ∧ ¬ Stutter s ev := by
   have h := mtenc_inv h1 h2 hr
   exact mtenc_progress_step h.a h.b h.w h.m hd
+
+/-- Bridge to the source (Gen/C08.lean is regenerated on every run): the per-critical-section input limit of worker_encode() is
+    positive, so a worker that has input always consumes some of it. All other theorems hold for every `Params.chunk`. -/
+theorem chunk_positive : 0 < Gen.C08.inChunkMax := by decide
 
 /-- **mtenc_worker_error_signals**: worker_error() is one critical section under coder->mutex that sets `thread_error` (first error
     wins) and signals coder->cond. -/
